@@ -2,6 +2,7 @@ import LassoProofs.Lemmas.Paths
 import LassoProofs.Lemmas.THistory
 import LassoModel.Extracted
 import LassoProofs.Lemmas.Config
+import LassoProofs.Lemmas.InternInterp
 /-
   C02 — canonical keys: equal strings share one key, different strings never do; lookups answer
   exactly "interned or not"; interning a present string changes nothing.
@@ -166,6 +167,17 @@ theorem lookup_comes_first :
     Extracted.internEffects.head? = some .fastGet ∧
     Extracted.internStaticEffects.head? = some .fastGet := by
   decide
+
+/-- The single-threaded interner's two interning functions *are* their regenerated effect sequences: the
+sequences are given a semantics (`LassoModel/InternInterp.lean`: hash; probe - an occupied entry returns its key at
+once; key check for the next position with the key-space error; store with the memory error, copying path only;
+push; table insert under the hash, with the re-hash closure over the new vector) and running them equals
+`Rodeo.tryIntern` / `Rodeo.tryInternStatic` for every state, string and growth oracle.  Every theorem about the
+model functions is therefore a theorem about what the source's statements do in the source's order. -/
+theorem interning_runs_the_source (env : Env) (r : Rodeo) (grow : Bool) :
+    (∀ x, interpIntern env Extracted.rodeoInternEffects r x grow = r.tryIntern env x grow) ∧
+    (∀ i, interpInternStatic env Extracted.rodeoInternStaticEffects r i grow = r.tryInternStatic env i grow) :=
+  ⟨fun x => interp_intern_is_model env r x grow, fun i => interp_intern_static_is_model env r i grow⟩
 
 /-- The code this file's theorems are about is the same under every feature configuration: the regenerated
 census of conditional compilation contains import blocks, whole serde impls, optional-dependency impls and
